@@ -27,8 +27,8 @@ import (
 )
 
 var delimiter = "\\$"
-var substitutionNamed = "[_a-z][_a-z0-9]*"
-var substitutionBraced = "[_a-z][_a-z0-9]*(?::?[-+?](.*))?"
+var substitutionNamed = "[_a-zA-Z][_a-zA-Z0-9]*"
+var substitutionBraced = "[_a-zA-Z][_a-zA-Z0-9]*(?::?[-+?](.*))?"
 
 var groupEscaped = "escaped"
 var groupNamed = "named"
@@ -36,7 +36,9 @@ var groupBraced = "braced"
 var groupInvalid = "invalid"
 
 var patternString = fmt.Sprintf(
-	"%s(?i:(?P<%s>%s)|(?P<%s>%s)|{(?:(?P<%s>%s)}|(?P<%s>)))",
+	// the letters are spelled out rather than matched case-insensitively: folding also admits the letters
+	// whose upper or lower case is ASCII (`ſ`, the Kelvin sign), which are no part of a variable name
+	"%s(?:(?P<%s>%s)|(?P<%s>%s)|{(?:(?P<%s>%s)}|(?P<%s>)))",
 	delimiter,
 	groupEscaped, delimiter,
 	groupNamed, substitutionNamed,
